@@ -55,6 +55,8 @@ def main(argv):
         else:
             ctx.lean_ok = True
             lean.audit(module)
+            if tier == 'thorough':
+                lean.leanchecker(module)
         drv = core.Driver()
         ctx.driver = drv if (ctx.lean_ok and drv.available()) else None
         if ctx.driver is None:
